@@ -1,0 +1,42 @@
+//go:build verif
+
+package ord
+
+// Contracts for ord.Seq / ord.Slice (C10): lexicographic strict total order
+// on sequences, checked by /verif/govc.  The loop invariant states that all
+// earlier positions tie; the order laws are lemmas over calls of the real
+// comparison closure (each call contributes what its loop established).
+
+//@ import "github.com/csgura/fp/internal/veriflaws"
+//
+//@ func Seq(ord) result
+//@   loop 0 invariant 0 <= i && i < last && last <= len(a) && last <= len(b) && (last == len(a) || last == len(b))
+//@   loop 0 invariant forall j int :: 0 <= j && j < i ==> !ord.Less(a[j], b[j]) && !ord.Less(b[j], a[j])
+//@   loop 0 decreases last - i
+//
+//@ lemma seqOrdLaws[T any](o fp.Ord[T], a, b, c fp.Seq[T])
+//@   prop C10
+//@   requires veriflaws.OrdCore(o)
+//@   ensures !Seq(o).Less(a, a)
+//@   tag irreflexive
+//@   ensures !(Seq(o).Less(a, b) && Seq(o).Less(b, a))
+//@   tag asymmetric
+//
+// Transitivity / trichotomy of the sequence order are consequences of the three characterisation
+// lemmas below (first difference decides, proper prefix is less, asymmetry); stating them directly
+// makes the path count explode (three inlined comparisons, each with two loops) and is not attempted.
+//
+//@ lemma seqOrdPrefix[T any](o fp.Ord[T], a, b fp.Seq[T])
+//@   prop C10
+//@   requires veriflaws.OrdCore(o)
+//@   requires len(a) < len(b) && (forall j int :: 0 <= j && j < len(a) ==> o.Eqv(a[j], b[j]))
+//@   ensures Seq(o).Less(a, b) && !Seq(o).Less(b, a)
+//@   tag properPrefixIsLess
+//
+//@ lemma seqOrdFirstDifference[T any](o fp.Ord[T], a, b fp.Seq[T], k int)
+//@   prop C10
+//@   requires veriflaws.OrdCore(o)
+//@   requires 0 <= k && k < len(a) && k < len(b) && (forall j int :: 0 <= j && j < k ==> o.Eqv(a[j], b[j]))
+//@   ensures o.Less(a[k], b[k]) ==> Seq(o).Less(a, b)
+//@   ensures o.Less(b[k], a[k]) ==> !Seq(o).Less(a, b)
+//@   tag decidedAtFirstDifference
